@@ -1,0 +1,99 @@
+//go:build verif
+
+package litestream
+
+import (
+	"context"
+
+	"github.com/prometheus/client_golang/prometheus"
+	dto "github.com/prometheus/client_model/go"
+)
+
+// Exported wrappers used only by the verification harness of the checkpoint
+// policy (property C13, build tag "verif"). They add no logic: each one calls
+// the unexported function it names.
+
+// VerifExceedsTruncateThreshold evaluates (*DB).exceedsTruncateThreshold.
+func (db *DB) VerifExceedsTruncateThreshold(walSize int64) bool {
+	return db.exceedsTruncateThreshold(walSize)
+}
+
+// VerifEffectiveTruncatePageN evaluates (*DB).effectiveTruncatePageN.
+func (db *DB) VerifEffectiveTruncatePageN() int { return db.effectiveTruncatePageN() }
+
+// VerifCalcWALSize evaluates calcWALSize.
+func VerifCalcWALSize(pageSize, pageN uint32) int64 { return calcWALSize(pageSize, pageN) }
+
+// VerifPageSize returns the page size litestream read from the database.
+func (db *DB) VerifPageSize() int { return db.pageSize }
+
+// VerifSetPageSize overrides db.pageSize (the `pageSize == 0` guards).
+func (db *DB) VerifSetPageSize(n int) { db.pageSize = n }
+
+// VerifSyncOnceResult is the part of syncResult the Sync loop and the
+// checkpoint policy look at.
+type VerifSyncOnceResult struct {
+	OrigWALSize    int64
+	NewWALSize     int64
+	Synced         bool
+	Limited        bool
+	SyncedToWALEnd bool
+}
+
+// VerifSyncOnce runs one iteration of the Sync loop (syncOnce with the
+// configured MaxSyncWALBytes).
+func (db *DB) VerifSyncOnce(ctx context.Context) (VerifSyncOnceResult, error) {
+	r, err := db.syncOnce(ctx, db.MaxSyncWALBytes)
+	return VerifSyncOnceResult{
+		OrigWALSize:    r.origWALSize,
+		NewWALSize:     r.newWALSize,
+		Synced:         r.synced,
+		Limited:        r.limited,
+		SyncedToWALEnd: r.syncedToWALEnd,
+	}, err
+}
+
+// VerifCheckpointIfNeeded runs the real checkpointIfNeeded under the executor
+// semaphore exactly as syncLocked does, with the two policy flags and the two
+// size arguments chosen by the caller. The executor is applied afterwards, so
+// the DB stays coherent. Returns the sync state after the call.
+func (db *DB) VerifCheckpointIfNeeded(ctx context.Context, truncatePassiveFailed, syncedSinceCheckpoint bool, origWALSize, newWALSize int64) (VerifSyncStateView, error) {
+	if err := db.lockExec(ctx); err != nil {
+		return VerifSyncStateView{}, err
+	}
+	defer db.execSem.Release(1)
+
+	exec, err := db.newSyncExecutor(ctx)
+	if err != nil || exec == nil {
+		return VerifSyncStateView{}, err
+	}
+	exec.state.truncatePassiveFailed = truncatePassiveFailed
+	exec.state.syncedSinceCheckpoint = syncedSinceCheckpoint
+	err = db.checkpointIfNeeded(ctx, exec, origWALSize, newWALSize)
+	db.applySyncExecutor(exec, true)
+	return db.VerifSyncState(), err
+}
+
+// VerifHoldCheckpointLock takes db.chkMu (as an in-progress snapshot does) and
+// returns the function releasing it.
+func (db *DB) VerifHoldCheckpointLock() (release func()) {
+	db.chkMu.Lock()
+	return db.chkMu.Unlock
+}
+
+// VerifCheckpointCount reads litestream_checkpoint_count{db,mode}.
+func (db *DB) VerifCheckpointCount(mode string) int {
+	var m dto.Metric
+	if err := db.checkpointNCounterVec.With(prometheus.Labels{"mode": mode}).Write(&m); err != nil {
+		return -1
+	}
+	return int(m.GetCounter().GetValue())
+}
+
+// VerifInit runs (*DB).init as every sync does first (newSyncExecutor), so that
+// the harness can observe the WAL as the first sync will find it.
+func (db *DB) VerifInit(ctx context.Context) error {
+	db.mu.Lock()
+	defer db.mu.Unlock()
+	return db.init(ctx)
+}
